@@ -20,8 +20,16 @@ typedef unsigned long long ull;
 struct Row { long x; ull est, lb, ub; };
 // wide profile (64-bit weights): numbers are logged as 4 little-endian limbs of 20 bits (spec/WideNum.tla), else as plain integers
 static bool g_wide = false;
+// observed value of weight type W as an unsigned integer; values that are not (anything a defect can produce: negative, NaN,
+// beyond 64 bits) become a sentinel.  Outside the wide profile every logged integer stays below 2^31 (TLC): larger values - which
+// the drivers never produce on purpose - are folded into [2e9, 2e9 + 1e6], so that they still disagree with the model
+template<class W> static ull tou(W v) {
+  if (std::is_floating_point<W>::value) { double x = (double)v; if (!(x >= 0) || x > 1.8e19) return 2000999999ULL; return (ull)x; }
+  if (std::is_signed<W>::value && v < 0) return 2000999998ULL;
+  return (ull)v;
+}
 static std::string num(ull v) {
-  if (!g_wide) return std::to_string(v);
+  if (!g_wide) return std::to_string(v > 2000000000ULL ? 2000000000ULL + v % 999983ULL : v);
   std::string s = "[";
   for (int k = 0; k < 4; k++) { if (k) s += ","; s += std::to_string((ull)((v >> (20 * k)) & 0xfffffULL)); }
   return s + "]";
@@ -80,7 +88,10 @@ template<class W> struct Driver {
   static constexpr size_t STREAM_CAP = 5000;
 
   Driver(vt::Rng& g_, int sp): g(g_), serde_pct(sp) {}
-  static const char* wname() { return std::is_signed<W>::value ? "i64" : "u64"; }
+  static const char* wname() {
+    return std::is_floating_point<W>::value ? (sizeof(W) == 4 ? "f32" : "f64")
+         : sizeof(W) == 4 ? (std::is_signed<W>::value ? "i32" : "u32") : (std::is_signed<W>::value ? "i64" : "u64");
+  }
 
   void upd(Sk& s, long x, ull w, bool raw) {
     switch (x % 3) {
@@ -91,15 +102,15 @@ template<class W> struct Driver {
   }
   Row query(const Sk& s, long x, bool raw) {
     switch (x % 3) {
-      case 0: { int64_t v = ival(x); return raw ? Row{x, (ull)s.get_estimate(&v, 8), (ull)s.get_lower_bound(&v, 8), (ull)s.get_upper_bound(&v, 8)}
-                                                 : Row{x, (ull)s.get_estimate(v), (ull)s.get_lower_bound(v), (ull)s.get_upper_bound(v)}; }
-      case 1: { uint64_t v = uval(x); return raw ? Row{x, (ull)s.get_estimate(&v, 8), (ull)s.get_lower_bound(&v, 8), (ull)s.get_upper_bound(&v, 8)}
-                                                  : Row{x, (ull)s.get_estimate(v), (ull)s.get_lower_bound(v), (ull)s.get_upper_bound(v)}; }
-      default: { std::string v = sval(x); return raw ? Row{x, (ull)s.get_estimate(v.data(), v.size()), (ull)s.get_lower_bound(v.data(), v.size()), (ull)s.get_upper_bound(v.data(), v.size())}
-                                                     : Row{x, (ull)s.get_estimate(v), (ull)s.get_lower_bound(v), (ull)s.get_upper_bound(v)}; }
+      case 0: { int64_t v = ival(x); return raw ? Row{x, tou(s.get_estimate(&v, 8)), tou(s.get_lower_bound(&v, 8)), tou(s.get_upper_bound(&v, 8))}
+                                                 : Row{x, tou(s.get_estimate(v)), tou(s.get_lower_bound(v)), tou(s.get_upper_bound(v))}; }
+      case 1: { uint64_t v = uval(x); return raw ? Row{x, tou(s.get_estimate(&v, 8)), tou(s.get_lower_bound(&v, 8)), tou(s.get_upper_bound(&v, 8))}
+                                                  : Row{x, tou(s.get_estimate(v)), tou(s.get_lower_bound(v)), tou(s.get_upper_bound(v))}; }
+      default: { std::string v = sval(x); return raw ? Row{x, tou(s.get_estimate(v.data(), v.size())), tou(s.get_lower_bound(v.data(), v.size())), tou(s.get_upper_bound(v.data(), v.size()))}
+                                                     : Row{x, tou(s.get_estimate(v)), tou(s.get_lower_bound(v)), tou(s.get_upper_bound(v))}; }
     }
   }
-  std::vector<ull> cells(const Sk& s) { std::vector<ull> c; for (auto it = s.begin(); it != s.end(); ++it) c.push_back((ull)*it); return c; }
+  std::vector<ull> cells(const Sk& s) { std::vector<ull> c; for (auto it = s.begin(); it != s.end(); ++it) c.push_back(tou(*it)); return c; }
   // new cell array against the previous event on this object: a short difference "d", or the whole array "cells"
   Ev& delta(Ev& e, int id) {
     auto cur = cells(*sk[id]); auto& p = prev[id];
@@ -115,7 +126,7 @@ template<class W> struct Driver {
   }
   Ev& scal(Ev& e, int id) {
     const Sk& s = *sk[id];
-    e.raw("total", num((ull)s.get_total_weight())).i("rows", s.get_num_hashes()).i("buckets", s.get_num_buckets()).i("seed", (long long)s.get_seed());
+    e.raw("total", num(tou(s.get_total_weight()))).i("rows", s.get_num_hashes()).i("buckets", s.get_num_buckets()).i("seed", (long long)s.get_seed());
     if (restored[id]) e.b("restored", true);
     return e;
   }
@@ -130,12 +141,40 @@ template<class W> struct Driver {
     upd(*sk[id], x, w, raw); ver[id]++; stream[id].emplace_back(x, w);
     Ev e("Update"); e.i("id", id).i("x", x).raw("w", num(w)).b("raw", raw); delta(scal(e, id), id).emit();
   }
+  long first_probe = -1;      // when set: the first item queried by the next probe list
+  // the answers for ONE item (estimate, lower bound, upper bound - in that order) and nothing else: used right before and right
+  // after a mutator, so that the same item is the last query before and the first query after it
+  void single_obs(int id, long x) {
+    std::vector<Row> q; q.push_back(query(*sk[id], x, false));
+    Ev e("Obs"); e.i("id", id); scal(e, id).raw("q", rows_json(q)).emit();
+  }
+  // query - mutate - same query again, no other call on the object in between; the mutator is an update of the same item, of
+  // another item, with weight zero, or a merge
+  void qmq(int i, int kind) {
+    long x = draw_item();
+    single_obs(i, x);
+    if (kind == 3) {
+      int j = -1; for (int c = 0; c < NS; c++) if (c != i && sk.count(c) && cfg[c] == cfg[i] && c != twin_b) j = c;
+      if (j >= 0 && stream[i].size() + stream[j].size() <= STREAM_CAP && !(wide && total_of(i) + total_of(j) > WIDE_CAP)) { first_probe = x; do_merge(i, j); first_probe = -1; }
+      else kind = 0;
+    }
+    if (kind != 3) {
+      long y = kind == 1 ? draw_item() : x; ull w = kind == 2 ? 0 : draw_weight();
+      if (wide && total_of(i) + w > WIDE_CAP / 2) w = 1;
+      if (stream[i].size() < STREAM_CAP) do_update(i, y, w, false);
+      single_obs(i, x);
+      if (stream[10 + i].size() < STREAM_CAP) do_update(10 + i, y, w, false);
+      return;
+    }
+    single_obs(i, x);
+  }
   std::vector<long> probe_items() {
     std::vector<long> p;
     if (U <= 40) for (long x = 1; x <= U; x++) p.push_back(x);
     else for (int k = 0; k < 40; k++) p.push_back(g.range(1, U));
     for (long x = U + 1; x <= U + 3; x++) p.push_back(x);     // never offered
     std::sort(p.begin(), p.end()); p.erase(std::unique(p.begin(), p.end()), p.end());
+    if (first_probe > 0) p.insert(p.begin(), first_probe);
     return p;
   }
   std::string probes(const Sk& s, const std::vector<long>& items, bool raw) {
@@ -205,7 +244,7 @@ template<class W> struct Driver {
   bool wide = false;
   // wide profile: totals cross 2^53 (where a double stops representing every integer) and stay below 2^62
   static constexpr ull WIDE_CAP = 1ULL << 62;
-  ull total_of(int id) { return (ull)sk[id]->get_total_weight(); }
+  ull total_of(int id) { return tou(sk[id]->get_total_weight()); }
   ull draw_weight() {
     int c = (int)g.below(100);
     if (wide) {
@@ -215,7 +254,14 @@ template<class W> struct Driver {
       if (c < 70) return 1;
       return (ull)g.range(1, 1000);
     }
-    if (c < 4) return 0; if (c < 60) return 1; if (c < 90) return g.range(1, 10); return g.range(1, 1000);
+    if (c < 4) return 0; if (c < 60) return 1; if (c < 90) return g.range(1, 10); return g.range(1, 1000);     // 5000 updates: < 2^23
+  }
+  // another shape with the same number of cells (rows' x buckets' = rows x buckets): must be refused like any other shape
+  Cfg equal_area(const Cfg& a) {
+    long cells = a.rows * a.buckets;
+    for (int k = 0; k < 40; k++) { long r = g.range(1, 64); if (r != a.rows && cells % r == 0 && cells / r >= 3) { Cfg b = a; b.rows = (int)r; b.buckets = cells / r; return b; } }
+    for (long r = 1; r <= 255; r++) if (r != a.rows && cells % r == 0 && cells / r >= 3) { Cfg b = a; b.rows = (int)r; b.buckets = cells / r; return b; }
+    Cfg b = a; b.buckets = a.buckets + 1; return b;
   }
   Cfg draw_cfg(int maxrows) {
     static const long BS[] = {3, 3, 4, 5, 7, 8, 16, 31, 64, 100, 257};
@@ -237,7 +283,8 @@ template<class W> struct Driver {
     for (auto& c : cdf) c /= z;
     Cfg A = draw_cfg(maxrows), B = A;
     if (seg % 7 == 3) { A.rows = 255; A.buckets = 3; B = A; }         // the widest row count the type allows
-    switch (g.below(6)) {
+    switch (g.below(8)) {
+      case 6: case 7: B = equal_area(A); break;
       case 0: B.seed = A.seed == 1 ? 2 : 1; break;
       case 1: B.rows = A.rows % 8 + 1; break;
       case 2: B.buckets = A.buckets + 1; break;
@@ -250,7 +297,9 @@ template<class W> struct Driver {
       if (twin_left > 0) i = twin_a;
       int op = (int)g.below(100);
       int upd = 100 - 16 - 2 * serde_pct;
-      if (op < upd) {
+      if (op < upd && g.chance(6) && twin_left == 0) {
+        qmq(i, (int)g.below(4));
+      } else if (op < upd) {
         long x = draw_item(); ull w = draw_weight(); bool raw = g.chance(20);
         if (stream[i].size() >= STREAM_CAP) continue;
         if (wide && total_of(i) + w > WIDE_CAP / 2) { w = 1; if (total_of(i) + w > WIDE_CAP / 2) continue; }
@@ -304,7 +353,15 @@ template<class W> struct Driver {
       twin_a = 0; twin_b = 1; twin_obs(); obs(1);
       for (int k = 0; k < 6; k++) both(2, g.range(1, U), (ull)g.range(1, 20), false);
       for (int k = 0; k < 24; k++) {
-        if (k == 4 || k == 15) { do_merge(0, 2); do_merge(1, 2); twin_obs(); continue; }
+        if (k == 4 || k == 15) {       // same item queried last before and first after the merge, on original and restored
+          long x = g.range(1, U); single_obs(0, x); first_probe = x; do_merge(0, 2); single_obs(0, x);
+          single_obs(1, x); do_merge(1, 2); single_obs(1, x); first_probe = -1; twin_obs(); continue;
+        }
+        if (k % 5 == 1) {              // query - update - same query, same item, on original and restored
+          long x = g.range(1, U); ull w = (ull)g.range(1, 9);
+          single_obs(0, x); do_update(0, x, w, false); single_obs(0, x); do_update(10, x, w, false);
+          single_obs(1, x); do_update(1, x, w, false); single_obs(1, x); do_update(11, x, w, false); twin_obs(); continue;
+        }
         if (k == 9) { ser(1, (b + 1) % NB); obs(0); obs(1); continue; }
         long x = g.range(1, U); ull w = g.chance(5) ? 0 : (ull)g.range(1, 9); bool raw = g.chance(30);
         both(0, x, w, raw); both(1, x, w, raw); twin_obs();
@@ -312,6 +369,27 @@ template<class W> struct Driver {
       obs(0); obs(1);
       twin_a = twin_b = -1;
       do_merge(2, 1); obs(2); obs(12);          // the restored sketch as a merge operand
+    }
+    // DIRECTED refusals: every kind of incompatible pair, in both directions, and a self merge; the call must throw, the target
+    // must be unchanged (cells, total, and the answers for an item queried right before), and stay usable
+    Cfg A; A.rows = 4; A.buckets = 6; A.seed = 9001;
+    if (g.chance(50)) { A.rows = (int)g.range(2, 6); A.buckets = (long)g.range(2, 6) * 2; }
+    std::vector<Cfg> others;
+    { Cfg b = A; b.rows = (int)A.buckets; b.buckets = A.rows; if (b.buckets >= 3 && b.rows != A.rows) others.push_back(b); }   // transposed: same cell count
+    others.push_back(equal_area(A));
+    { Cfg b = A; b.seed = colliding_seed(A.seed); others.push_back(b); }
+    { Cfg b = A; b.seed = A.seed + 1; others.push_back(b); }
+    { Cfg b = A; b.rows = A.rows + 1; others.push_back(b); }
+    { Cfg b = A; b.buckets = A.buckets + 1; others.push_back(b); }
+    for (auto& B : others) {
+      mkpair(0, A); mkpair(2, B);
+      auto both = [&](int i, long x, ull w) { do_update(i, x, w, false); do_update(10 + i, x, w, false); };
+      for (int k = 0; k < 8; k++) { both(0, g.range(1, U), (ull)g.range(1, 20)); both(2, g.range(1, U), (ull)g.range(1, 20)); }
+      long x = g.range(1, U);
+      single_obs(0, x); do_merge(0, 2); single_obs(0, x);
+      single_obs(2, x); do_merge(2, 0); single_obs(2, x);
+      single_obs(0, x); do_merge(0, 0); single_obs(0, x);
+      both(0, x, 3); both(2, x, 5); obs(0); obs(2);
     }
   }
   void twin_obs() { Ev("TwinObs").i("a", twin_a).i("b", twin_b).b("restored", true).emit(); }
@@ -364,6 +442,18 @@ template<class W> struct Driver {
   }
 };
 
+// every weight type the template is documented for (arithmetic W), by turns
+template<class F> static void with_types(uint64_t k, vt::Rng& g, int sp, F f) {
+  switch (k % 6) {
+    case 0: { Driver<uint64_t> d(g, sp); f(d); break; }
+    case 1: { Driver<int64_t> d(g, sp); f(d); break; }
+    case 2: { Driver<float> d(g, sp); f(d); break; }
+    case 3: { Driver<uint32_t> d(g, sp); f(d); break; }
+    case 4: { Driver<double> d(g, sp); f(d); break; }
+    default: { Driver<int32_t> d(g, sp); f(d); }
+  }
+}
+
 int main(int argc, char** argv) {
   vt::install_terminate();
   uint64_t seed = (uint64_t)vt::argl(argc, argv, "--seed", 1);
@@ -378,11 +468,13 @@ int main(int argc, char** argv) {
   vt::Rng g(seed);
   if (wide == 0 && vt::argl(argc, argv, "--edge", 1)) {      // own generator: the random segments keep their streams
     vt::Rng ge(seed ^ 0xED6EULL);
-    if (seed % 2 == 0) { Driver<uint64_t> d(ge, serde_pct); d.edge_segment(900); } else { Driver<int64_t> d(ge, serde_pct); d.edge_segment(900); }
+    with_types(seed + 2, ge, serde_pct, [&](auto& d) { d.edge_segment(900); });
   }
   for (long seg = 0; seg < segments; seg++) {
-    if ((seg + seed) % 2 == 0) { Driver<uint64_t> d(g, serde_pct); d.segment(seg, events, maxrows, wide != 0); }
-    else { Driver<int64_t> d(g, serde_pct); d.segment(seg, events, maxrows, wide != 0); }
+    if (wide) {
+      if ((seg + seed) % 2 == 0) { Driver<uint64_t> d(g, serde_pct); d.segment(seg, events, maxrows, true); }
+      else { Driver<int64_t> d(g, serde_pct); d.segment(seg, events, maxrows, true); }
+    } else with_types((uint64_t)seg + seed, g, serde_pct, [&](auto& d) { d.segment(seg, events, maxrows, false); });
     g_wide = false;
   }
   static const long BK[] = {6, 8, 12, 16, 20, 32};
